@@ -28,13 +28,13 @@ theorem mapPut_dup (k0 v0 k v : Val) (rest : Vals) (h : k0.show = k.show) :
     mapPut (.cons k0 (.cons v0 rest)) k v = .cons k0 (.cons v rest) := by
   simp [mapPut, h]
 
-theorem decodeList_norm (p : Proto) (strict : Bool) (et : Ty) (nrm : Val → Val) (D : Nat) :
+theorem decodeList_norm (p : Proto) (strict : Bool) (d : Nat) (et : Ty) (nrm : Val → Val) (D : Nat) :
     ∀ (l : List Val),
       (∀ a ∈ l, 1 ≤ (encode p et a).length) →
       (∀ a ∈ l, ∀ fuel rest, (encode p et a).length + D ≤ fuel →
-        decode p strict fuel et (encode p et a ++ rest) (zeroOf et) = .ok (nrm a, rest)) →
+        decode p strict d fuel et (encode p et a ++ rest) (zeroOf et) = .ok (nrm a, rest)) →
       ∀ fuel rest acc, (l.map (encode p et)).flatten.length + 1 + D ≤ fuel →
-        decodeList p strict fuel et l.length ((l.map (encode p et)).flatten ++ rest) acc
+        decodeList p strict d fuel et l.length ((l.map (encode p et)).flatten ++ rest) acc
           = .ok (.list (Vals.ofList (acc.reverse ++ l.map nrm)), rest) := by
   intro l
   induction l with
@@ -54,16 +54,16 @@ theorem decodeList_norm (p : Proto) (strict : Bool) (et : Ty) (nrm : Val → Val
       f rest (nrm a :: acc) (by omega)]
     simp
 
-theorem decodeMap_norm (p : Proto) (strict : Bool) (kt vt : Ty) (nk nv : Val → Val) (D : Nat) :
+theorem decodeMap_norm (p : Proto) (strict : Bool) (d : Nat) (kt vt : Ty) (nk nv : Val → Val) (D : Nat) :
     ∀ (l qs : List (Val × Val)),
       (∀ a ∈ l, 1 ≤ (encode p kt a.1).length) →
       (∀ a ∈ l, ∀ fuel rest, (encode p kt a.1).length + D ≤ fuel →
-        decode p strict fuel kt (encode p kt a.1 ++ rest) (zeroOf kt) = .ok (nk a.1, rest)) →
+        decode p strict d fuel kt (encode p kt a.1 ++ rest) (zeroOf kt) = .ok (nk a.1, rest)) →
       (∀ a ∈ l, ∀ fuel rest, (encode p vt a.2).length + D ≤ fuel →
-        decode p strict fuel vt (encode p vt a.2 ++ rest) (zeroOf vt) = .ok (nv a.2, rest)) →
+        decode p strict d fuel vt (encode p vt a.2 ++ rest) (zeroOf vt) = .ok (nv a.2, rest)) →
       (qs.map (·.1.show) ++ l.map fun a => (nk a.1).show).Nodup →
       ∀ fuel rest, (l.map fun a => encode p kt a.1 ++ encode p vt a.2).flatten.length + 1 + D ≤ fuel →
-        decodeMap p strict fuel kt vt l.length ((l.map fun a => encode p kt a.1 ++ encode p vt a.2).flatten ++ rest)
+        decodeMap p strict d fuel kt vt l.length ((l.map fun a => encode p kt a.1 ++ encode p vt a.2).flatten ++ rest)
             (flat qs)
           = .ok (.map (flat (qs ++ l.map fun a => (nk a.1, nv a.2))), rest) := by
   intro l
@@ -92,14 +92,14 @@ theorem decodeMap_norm (p : Proto) (strict : Bool) (kt vt : Ty) (nk nv : Val →
       (by simpa [List.map_append, List.append_assoc] using hnd) f rest (by omega)]
     simp [List.append_assoc]
 
-theorem decodeSet_norm (p : Proto) (strict : Bool) (kt : Ty) (nk : Val → Val) (D : Nat) :
+theorem decodeSet_norm (p : Proto) (strict : Bool) (d : Nat) (kt : Ty) (nk : Val → Val) (D : Nat) :
     ∀ (l qs : List (Val × Val)),
       (∀ a ∈ l, 1 ≤ (encode p kt a.1).length) →
       (∀ a ∈ l, ∀ fuel rest, (encode p kt a.1).length + D ≤ fuel →
-        decode p strict fuel kt (encode p kt a.1 ++ rest) (zeroOf kt) = .ok (nk a.1, rest)) →
+        decode p strict d fuel kt (encode p kt a.1 ++ rest) (zeroOf kt) = .ok (nk a.1, rest)) →
       (qs.map (·.1.show) ++ l.map fun a => (nk a.1).show).Nodup →
       ∀ fuel rest, (l.map fun a => encode p kt a.1).flatten.length + 1 + D ≤ fuel →
-        decodeSet p strict fuel kt l.length ((l.map fun a => encode p kt a.1).flatten ++ rest) (flat qs)
+        decodeSet p strict d fuel kt l.length ((l.map fun a => encode p kt a.1).flatten ++ rest) (flat qs)
           = .ok (.map (flat (qs ++ l.map fun a => (nk a.1, .struct .nil))), rest) := by
   intro l
   induction l with
